@@ -469,6 +469,12 @@ impl GlobalState {
             state: self.clone(),
         }));
         self.alive.lock().await.insert(id, Arc::downgrade(&ret));
+        #[cfg(redproxy_verif)]
+        crate::vtrace::emit(
+            "ctx_new",
+            serde_json::json!({"id": id, "listener": ret.read().await.props().listener, "source": source.to_string(),
+                               "idle": self.default_timeout}),
+        );
         ret
     }
 
@@ -499,6 +505,12 @@ impl GlobalState {
                     while terminated.len() > self.history_size {
                         terminated.pop_back();
                     }
+                    #[cfg(redproxy_verif)]
+                    crate::vtrace::emit(
+                        "gc",
+                        serde_json::json!({"history_len": terminated.len(), "alive_len": alive.len(),
+                                           "history_ids": terminated.iter().map(|p| p.id).collect::<Vec<_>>()}),
+                    );
                     #[cfg(feature = "metrics")]
                     timer.stop_and_record();
                 }
@@ -672,6 +684,11 @@ impl Context {
             .state
             .push((state, SystemTime::now()).into());
         tracing::debug!("set_state: ctx={} state={:?}", self.props, state);
+        #[cfg(redproxy_verif)]
+        crate::vtrace::emit(
+            "state",
+            serde_json::json!({"id": self.props.id, "st": format!("{:?}", state)}),
+        );
         self
     }
 
@@ -686,6 +703,11 @@ impl Context {
 
     pub fn set_idle_timeout(&mut self, timeout: u64) -> &mut Self {
         Arc::make_mut(&mut self.props).idle_timeout = timeout;
+        #[cfg(redproxy_verif)]
+        crate::vtrace::emit(
+            "idle_set",
+            serde_json::json!({"id": self.props.id, "idle": timeout}),
+        );
         self
     }
 }
@@ -740,6 +762,13 @@ impl Drop for Context {
     fn drop(&mut self) {
         trace!("Context dropped: {}", self);
         self.state.gc_list.lock().unwrap().push(self.props.clone());
+        #[cfg(redproxy_verif)]
+        crate::vtrace::emit(
+            "drop",
+            serde_json::json!({"id": self.props.id, "error": self.props.error,
+                               "c_bytes": self.props.client_stat.read_bytes.load(Ordering::Relaxed),
+                               "s_bytes": self.props.server_stat.read_bytes.load(Ordering::Relaxed)}),
+        );
     }
 }
 
